@@ -128,8 +128,41 @@ def make(targets=None, timeout=3000):
     coqproject()
     os.makedirs(os.path.join(ROOT, "ocaml", "build"), exist_ok=True)
     tgt = " ".join(targets) if targets else ""
-    cmd = "ulimit -s unlimited 2>/dev/null; make -k -j%d %s" % (NPROC, tgt)
+    cmd = "ulimit -s unlimited 2>/dev/null; make -k -j%d COQC='timeout 1500 coqc' %s" % (NPROC, tgt)
     return sh(cmd, cwd=COQ, timeout=timeout)
+
+
+def targets_for(pid):
+    """make targets of one property: its theorem file and its extraction file (deps follow)."""
+    t = []
+    for rel in ("theories/Props/%s.v" % pid, "extract/Extract%s.v" % pid):
+        if os.path.exists(os.path.join(COQ, rel)):
+            t.append(rel[:-2] + ".vo")
+    return t
+
+
+def dep_cone(pid):
+    """Transitive .v dependencies (inside coq/) of the property's targets, from coq/.Makefile.d."""
+    deps = {}
+    mk = os.path.join(COQ, ".Makefile.d")
+    if os.path.exists(mk):
+        for line in open(mk):
+            if ":" not in line:
+                continue
+            lhs, rhs = line.split(":", 1)
+            outs = [x for x in lhs.split() if x.endswith(".vo")]
+            ins = [x[:-3] + ".v" for x in rhs.split() if x.endswith(".vo") and not x.startswith("/")]
+            for o in outs:
+                deps.setdefault(o[:-3] + ".v", set()).update(ins)
+    todo = [t[:-3] + ".v" for t in targets_for(pid)]
+    seen = set()
+    while todo:
+        f = todo.pop()
+        if f in seen:
+            continue
+        seen.add(f)
+        todo.extend(deps.get(f, ()))
+    return sorted(seen)
 
 
 def vo_fresh(rel_v):
@@ -139,10 +172,16 @@ def vo_fresh(rel_v):
     return os.path.exists(vo) and os.path.getmtime(vo) >= os.path.getmtime(v)
 
 
-def hygiene():
-    """Forbidden vocabulary anywhere in the development (comments stripped)."""
+def hygiene(pid=None):
+    """Forbidden vocabulary (comments stripped): in the whole development, or, for one property,
+    in every file its theorems and extracted model depend on."""
     hits = []
-    for f in glob.glob(os.path.join(COQ, "**", "*.v"), recursive=True):
+    files = glob.glob(os.path.join(COQ, "**", "*.v"), recursive=True)
+    if pid:
+        cone = dep_cone(pid)
+        if cone:
+            files = [os.path.join(COQ, f) for f in cone if os.path.exists(os.path.join(COQ, f))]
+    for f in files:
         txt = open(f).read()
         txt = strip_comments(txt)
         for i, line in enumerate(txt.splitlines(), 1):
@@ -300,9 +339,14 @@ class Model:
 # ----------------------------------------------------------------------------------------
 
 def load_findings(pid):
-    path = os.path.join(ROOT, "known_findings.jsonl")
+    paths = [os.path.join(ROOT, "known_findings.jsonl")]
+    extra = os.environ.get("VERIF_EXTRA_FINDINGS")   # development aid only (never set by MANIFEST commands)
+    if extra:
+        paths.append(os.path.join(ROOT, extra) if not os.path.isabs(extra) else extra)
     known, fixed = [], []
-    if os.path.exists(path):
+    for path in paths:
+        if not os.path.exists(path):
+            continue
         for line in open(path):
             line = line.strip()
             if not line or line.startswith("#"):
@@ -394,3 +438,23 @@ def anchored_hashes(files):
         if os.path.exists(p):
             out[rel] = sha_file(p)[:16]
     return out
+
+
+def ddmin(items, still_fails, max_tests=400):
+    """Delta debugging: a smaller sublist of `items` for which still_fails(sublist) holds."""
+    items = list(items)
+    n, tests = 2, 0
+    while len(items) >= 2 and tests < max_tests:
+        chunk = max(1, len(items) // n)
+        reduced = False
+        for i in range(0, len(items), chunk):
+            cand = items[:i] + items[i + chunk:]
+            tests += 1
+            if cand and still_fails(cand):
+                items, n, reduced = cand, max(n - 1, 2), True
+                break
+        if not reduced:
+            if chunk == 1:
+                break
+            n = min(len(items), n * 2)
+    return items
